@@ -151,6 +151,16 @@ def run_inflight(case: dict[str, Any]) -> dict[str, Any]:
         want = "TimeoutError" if case["abort"] == "timeout" else "ComponentStartError"
         if out.get("start") != want:
             V.append({"key": "fail-wrong-exception", "msg": f"start_component: {out.get('start')}, expected {want}", "witness": {"case": case, **out}})
+        if in_flight:
+            # the consumer sits inside get_resource() - inside the factory - when start-up is aborted: it is stopped there and then
+            when = case["fail_at"] + (0.125 if case["abort"] == "timeout" else 0)
+            if out.get("start") == want and abs(out.get("raised_at", -1) - when) > 1e-9:
+                V.append({"key": "timeout-time" if case["abort"] == "timeout" else "fail-time",
+                          "msg": f"start-up was aborted at virtual time {when} while a component was waiting inside a resource factory that takes "
+                                 f"{case['gen_time']}; start_component raised at {out.get('raised_at')}", "witness": {"case": case, **out}})
+            if "consumer got the resource" in out["log"]:
+                V.append({"key": "fail-sibling-continued", "msg": "the component that was waiting inside a resource factory when start-up was aborted went on "
+                                                                  "with its start() afterwards", "witness": {"case": case, **out}})
         if out.get("later_lookup") != "Res":
             V.append({"key": "fail-context-unusable", "msg": f"requesting the resource from the surrounding context after the aborted start-up: {out.get('later_lookup')}",
                       "witness": {"case": case, **out}})
